@@ -169,6 +169,33 @@ Proof.
   destruct (s_index s1 =? len src) eqn:E; [apply Z.eqb_eq in E; contradiction|]. cbn [orb]. exact IH.
 Qed.
 
+Lemma skip_ws_ge n : forall i j, skip_ws n src i = Ok j -> i <= j.
+Proof.
+  induction n as [|n IH]; intros i j H; cbn [skip_ws] in H.
+  - destruct (i + 1 <? len src); [|inversion H; lia].
+    destruct (get 8 src (i + 1)); cbn [bind] in H; try discriminate.
+    destruct (a =? WS); [discriminate|inversion H; lia].
+  - destruct (i + 1 <? len src); [|inversion H; lia].
+    destruct (get 8 src (i + 1)); cbn [bind] in H; try discriminate.
+    destruct (a =? WS); [apply IH in H; lia|inversion H; lia].
+Qed.
+
+Lemma step_index s s' : fsm_step src offs maxrow s = Ok s' -> s_index s < s_index s'.
+Proof.
+  unfold fsm_step. intros H.
+  repeat match type of H with
+  | bind ?x _ = Ok _ => let E := fresh "E" in destruct x eqn:E; cbn [bind] in H; try discriminate H
+  | context[match ?p with pair _ _ => _ end] => destruct p
+  | (if ?b then _ else _) = Ok _ => destruct b eqn:?
+  end; inversion H; subst; cbn [s_index]; try lia;
+  match goal with E : skip_ws _ _ _ = Ok _ |- _ => apply skip_ws_ge in E; lia end.
+Qed.
+
+Lemma runn_index n s s' : runn n s s' -> s_index s + Z.of_nat n <= s_index s'.
+Proof.
+  induction 1 as [|n s s1 s2 Hst Hne Hr IH]; [lia|]. apply step_index in Hst. lia.
+Qed.
+
 Definition out_of (s:st) : fout :=
   mkFout (s_eol s + 1) (s_row s) (s_ifull s) (s_vfull s) (s_vfc s) (s_inds s) (s_vals s) (s_esc s) (s_cand s).
 
